@@ -26,6 +26,9 @@ mod codec;
 mod config;
 mod io;
 
+#[cfg(libp2p_verif)]
+pub use codec::verif;
+
 use std::{
     cmp, iter,
     pin::Pin,
